@@ -180,6 +180,11 @@ class ProcessExecutor:
                 future.cancel()
                 del self._running_id_to_future_and_process[future.id]
 
+    def unfinished_count(self) -> int:
+        """Return the number of submitted futures that are still
+        pending or running."""
+        return len(self._pending_future_to_thunk) + len(self._running_id_to_future_and_process)
+
     def _consume_result_queue(self, *, timeout_seconds: Optional[float]):
         # Avoid race condition of a process finishing after we have
         # consumed the result_queue by fetching process statuses
@@ -226,10 +231,10 @@ class ProcessExecutor:
         # cancelled or finished, then set an exception for it.
         with self._running_lock:
             for future in dead_process_futures:
-                if future.done:
-                    continue
-                future.set_exception(TaskDiedError())
-                del self._running_id_to_future_and_process[future.id]
+                if not future.done:
+                    future.set_exception(TaskDiedError())
+                # Whatever became of the future, its process is gone.
+                self._running_id_to_future_and_process.pop(future.id, None)
 
     def wait(self, futures: Sequence[Future], *, timeout_seconds: Optional[float]) -> tuple[list[Future], list[Future]]:
         """Wait up to timeout_seconds or until at least one of the
@@ -417,7 +422,11 @@ class ProcessRunner(Runner, ABC):
         pass
 
     def pending_task_count(self) -> int:
-        return len(self.future_to_task)
+        # The executor may hold a task that we were interrupted while
+        # submitting (before it was recorded in future_to_task): it
+        # still counts, so that it is waited for (or stopped) like
+        # every other running task.
+        return max(len(self.future_to_task), self.executor.unfinished_count())
 
     def get_result(self, task: Task) -> TaskResult:
         return self.results_map[task]
